@@ -27,15 +27,17 @@ Step ==
                 tcpChanged == r.tcpb # r.tcpa
                 P(rule, ok) == IF ok THEN <<>> ELSE << <<l, rule, r.m, r.ld, r.v, r.s, r.d, r.p, r.c>> >>
                 i1 == P("I1", Addressed(r) \/ (r.udp = 0 /\ ~tcpChanged /\ ks = {}))
-                i2 == P("I2", (r.udp > 0 => (MayDeliverUdp(r) /\ r.udp = 1 /\ r.udp_ok)) /\ (tcpChanged => r.p = "syn-open"))
+                i2 == P("I2", (r.udp > 0 => (MayDeliverUdp(r) /\ r.udp = 1 /\ r.udp_ok)) /\ (tcpChanged => MayChangeTcp(r)))
                 i3 == P("I3", errs = {} \/ (UnicastDst(r) /\ UnicastSrc(r)))
                 i4 == P("I4", errs = {} \/ ~IsError(r))
                 i5 == P("I5", ~(IsTcp(r) /\ ~UnicastDst(r)) \/ ~tcpChanged)
                 k3 == P("K3", ~(r.c \in {"ip-hdr", "l4"}) \/ (r.udp = 0 /\ ~tcpChanged /\ ks = {}))
+                \* a corrupted solicitation / query draws no advertisement / report either
+                k3q == P("K3", ~(IsQuery(r) /\ r.c \in {"ip-hdr", "l4"}) \/ Kinds(r.out) \cap {"ndisc", "mld", "igmp"} = {})
                 k4 == P("K4", ~(r.c = "udp0" /\ r.v = 6) \/ (r.udp = 0 /\ ks = {}))
                 k2 == P("K2", \A i \in 1..Len(r.out) : "wf" \notin DOMAIN r.out[i] \/ r.out[i].wf)
                 e3 == P("E3", \A i \in 1..Len(r.out) : "src_own" \notin DOMAIN r.out[i] \/ r.out[i].kind \in {"ndisc", "mld", "igmp"} \/ r.out[i].src_own)
-            IN /\ viol' = IF Len(viol) >= 60 THEN viol ELSE viol \o i1 \o i2 \o i3 \o i4 \o i5 \o k3 \o k4 \o k2 \o e3
+            IN /\ viol' = IF Len(viol) >= 60 THEN viol ELSE viol \o i1 \o i2 \o i3 \o i4 \o i5 \o k3 \o k3q \o k4 \o k2 \o e3
                /\ hits' = [hits EXCEPT !["I1"] = @ + (IF Addressed(r) THEN 0 ELSE 1), !["I2"] = @ + (IF r.udp > 0 \/ tcpChanged THEN 1 ELSE 0),
                                        !["I3"] = @ + (IF UnicastDst(r) /\ UnicastSrc(r) THEN 0 ELSE 1), !["I4"] = @ + (IF IsError(r) THEN 1 ELSE 0),
                                        !["I5"] = @ + (IF IsTcp(r) /\ ~UnicastDst(r) THEN 1 ELSE 0), !["K3"] = @ + (IF r.c \in {"ip-hdr", "l4"} THEN 1 ELSE 0),
